@@ -185,6 +185,33 @@ fn verify_case(
     }
     // the same verdicts when the path is a symbolic link to the file
     if recorded_hash == truth || recorded_size != Some(real_len) {
+        // also: the recorded name is a link into a content store whose files have other names
+        {
+            let store = dir.join("store");
+            let _ = std::fs::create_dir_all(&store);
+            let blob = store.join("blob-0123abcd");
+            let ldir2 = dir.join("lnk2");
+            let link2 = ldir2.join(name);
+            if let Some(parent) = link2.parent() {
+                let _ = std::fs::create_dir_all(parent);
+            }
+            let _ = std::fs::remove_file(&link2);
+            if std::fs::write(&blob, content).is_ok() && std::os::unix::fs::symlink(&blob, &link2).is_ok() {
+                let r = guard(|| {
+                    let mut d = Distinfo::new();
+                    d.insert(Entry::new(name, &link2, vec![Checksum::new(digest_of(algo), recorded_hash.to_string())], if nosize { None } else { recorded_size }));
+                    (d.find_entry(&link2).is_ok(), d.verify_checksum(&link2, digest_of(algo)).map(|d| d.to_string()).map_err(|e| err_json(&e)), d.verify_size(&link2).map_err(|e| err_json(&e)))
+                });
+                let _ = std::fs::remove_file(&link2);
+                if let Ok((found, vc, vs)) = r {
+                    let size_ok = if nosize || recorded_size.is_none() { vs.is_err() } else { vs.is_ok() == (recorded_size == Some(real_len)) };
+                    if !(found && vc.is_ok() == (recorded_hash == truth) && size_ok) {
+                        bad("an entry is located by the given path's trailing sub-paths, also when that path is a symbolic link to a file of another name", json!({"found": true, "hash_matches": recorded_hash == truth, "size_matches": recorded_size == Some(real_len)}), json!(format!("found={} {:?} {:?}", found, vc, vs)));
+                        return;
+                    }
+                }
+            }
+        }
         let ldir = dir.join("lnk");
         let _ = std::fs::create_dir_all(&ldir);
         let link = ldir.join(name);
@@ -527,6 +554,35 @@ fn replay(run: &Run, doc: &Value) -> Option<Violation> {
             let rec: Vec<String> = c["recorded"].as_array().map(|a| a.iter().filter_map(|x| x.as_str().map(|s| s.to_string())).collect()).unwrap_or_default();
             check_lookup(&mut t, &rec, c["lookup"].as_str().unwrap_or(""), c["how"].as_u64().unwrap_or(0) as usize);
         }
+        Some("history") => {
+            // re-run the recorded history
+            let ins = ["f", "d/f", "e/d/f", "x/f"];
+            let root = run.scratch_dir().to_string_lossy().into_owned();
+            let look: Vec<String> = vec![format!("{}/e/d/f", root), format!("{}/d/f", root), "f".to_string()];
+            let mut d = Distinfo::new();
+            let mut recorded: Vec<String> = vec![];
+            for (step, op) in c["history"].as_array().cloned().unwrap_or_default().iter().enumerate() {
+                let op = op.as_str().unwrap_or("");
+                if let Some(n) = op.strip_prefix("insert ") {
+                    if !recorded.iter().any(|r| r == n) {
+                        recorded.push(n.to_string());
+                    }
+                    let k = ins.iter().position(|x| *x == n).unwrap_or(0);
+                    d.insert(Entry::new(n, "/nonexistent", vec![Checksum::new(Digest::SHA1, format!("{:040x}", k))], Some(k as u64)));
+                } else if let Some(p) = op.strip_prefix("find_entry ") {
+                    let tail = p.rsplit_once("/e/d/f").map(|_| look[0].clone()).or_else(|| p.ends_with("/d/f").then(|| look[1].clone())).unwrap_or_else(|| "f".to_string());
+                    let _ = d.find_entry(PathBuf::from(tail));
+                }
+                for p in &look {
+                    let want = lookup_model(&recorded, p);
+                    let got = d.find_entry(PathBuf::from(p)).ok().map(|e| e.filename.to_string_lossy().into_owned());
+                    if got != want {
+                        t.violation(Violation::new("history", c.clone(), json!({"after_step": step, "lookup": p, "entry": want}), json!(got), "find_entry must reflect what has been inserted so far, whatever was looked up before"));
+                        return t.violations.into_iter().next();
+                    }
+                }
+            }
+        }
         Some("multi") => {
             let dir = run.scratch_dir().join("replay");
             let _ = std::fs::create_dir_all(&dir);
@@ -632,6 +688,57 @@ fn main() {
             }
         }
     });
+    // histories on ONE object: every sequence of <= 4 operations over {insert one of 4 names,
+    // look up one of 3 paths}; after every operation each lookup path is resolved again and must
+    // give the shortest recorded trailing sub-path of what has been inserted so far
+    {
+        let ins = ["f", "d/f", "e/d/f", "x/f"];
+        let look: Vec<String> = vec![format!("{}/e/d/f", root), format!("{}/d/f", root), "f".to_string()];
+        let nops = ins.len() + look.len();
+        let depth = run.pick(4, 5);
+        run.bound(format!("histories on one Distinfo: all {} sequences of <= {} operations over 4 inserts and 3 lookups, every lookup path re-resolved after every operation", seqs::count(nops, depth), depth));
+        seqs::par_seqs(&run, "C12 histories", nops, depth, 1, |_| false, |q, t| {
+            if q.is_empty() {
+                return;
+            }
+            t.states += 1;
+            let case = || json!({"history": q.iter().map(|o| if *o < ins.len() { format!("insert {}", ins[*o]) } else { format!("find_entry {}", look[*o - ins.len()]) }).collect::<Vec<_>>()});
+            let r = guard(|| {
+                let mut d = Distinfo::new();
+                let mut recorded: Vec<String> = vec![];
+                for (step, o) in q.iter().enumerate() {
+                    if *o < ins.len() {
+                        if !recorded.iter().any(|r| r == ins[*o]) {
+                            recorded.push(ins[*o].to_string());
+                        }
+                        d.insert(Entry::new(ins[*o], "/nonexistent", vec![Checksum::new(Digest::SHA1, format!("{:040x}", *o))], Some(*o as u64)));
+                    } else {
+                        let _ = d.find_entry(PathBuf::from(&look[*o - ins.len()]));
+                    }
+                    // every path, after every operation
+                    for p in &look {
+                        let want = lookup_model(&recorded, p);
+                        let got = d.find_entry(PathBuf::from(p)).ok().map(|e| e.filename.to_string_lossy().into_owned());
+                        if got != want {
+                            return Some((step, p.clone(), want, got));
+                        }
+                    }
+                }
+                None
+            });
+            t.evals += (q.len() * look.len()) as u64;
+            t.validated += (q.len() * look.len()) as u64;
+            t.transitions += q.len() as u64;
+            match r {
+                Ok(None) => {
+                    t.nontrivial += 1;
+                    t.outcome("history/consistent");
+                }
+                Ok(Some((step, p, want, got))) => t.violation(Violation::new("history", case(), json!({"after_step": step, "lookup": p, "entry": want}), json!(got), "find_entry must reflect what has been inserted so far, whatever was looked up before")),
+                Err(m) => t.violation(Violation::new("history", case(), json!("returns"), json!(format!("panic: {}", m)), "Distinfo panicked")),
+            }
+        });
+    }
     // several checksums per file, in every recording order
     {
         let orders = algo_orders();
